@@ -9,6 +9,7 @@ import (
 	"go/token"
 	gotypes "go/types"
 	"path/filepath"
+	"regexp"
 	"sort"
 	"strings"
 
@@ -714,6 +715,10 @@ func genC18(ctx *fw.Ctx) []fw.Case {
 		b := b
 		cases = append(cases, fw.Case{ID: fmt.Sprintf("numeric-forms/%d", b), Run: func(r *fw.Rec) { c18Numeric(r, b, 16) }})
 	}
+	for _, k := range []string{"global", "global-declaration", "declaration", "definition", "alias"} {
+		k := k
+		cases = append(cases, fw.Case{ID: "header-combinations/" + k, Run: func(r *fw.Rec) { c18HeaderCombos(r, k) }})
+	}
 	return cases
 }
 
@@ -1081,4 +1086,264 @@ func c18Numeric(r *fw.Rec, blk, nblk int) {
 		c18HostRoundTrip(r, "DwarfTag", fmt.Sprintf("tag%d", tag), tag, fmt.Sprint(tag), ad["DwarfTag"])
 	}
 	r.NontrivialN("numeric-tag", n)
+}
+
+// c18HeaderCombos sets every LLVM-valid combination of the keyword families
+// that share a symbol header (linkage x preemption x visibility x DLL storage
+// class x unnamed_addr, and the TLS model where the entity has one) on one
+// entity per combination, prints the module, parses it back and compares every
+// field: a keyword of one family must survive whatever the other families say
+// (a printer or parser that drops a keyword "implied" by another one loses
+// it). Which combinations are valid is decided by llvm-as on a text written by
+// the monitor itself, not by the library's printer.
+type c18Combo struct {
+	l enum.Linkage
+	p enum.Preemption
+	v enum.Visibility
+	d enum.DLLStorageClass
+	u enum.UnnamedAddr
+	t enum.TLSModel
+}
+
+func c18ComboLine(kind, name string, c c18Combo) string {
+	var w []string
+	add := func(s string) {
+		if s != "" && s != "none" {
+			w = append(w, s)
+		}
+	}
+	add(c.l.String())
+	add(c.p.String())
+	add(c.v.String())
+	add(c.d.String())
+	tls := ""
+	switch c.t {
+	case enum.TLSModelGeneric:
+		tls = "thread_local"
+	case enum.TLSModelInitialExec:
+		tls = "thread_local(initialexec)"
+	case enum.TLSModelLocalDynamic:
+		tls = "thread_local(localdynamic)"
+	case enum.TLSModelLocalExec:
+		tls = "thread_local(localexec)"
+	}
+	ua := ""
+	if c.u != enum.UnnamedAddrNone {
+		ua = c.u.String()
+	}
+	hdr := strings.Join(w, " ")
+	if hdr != "" {
+		hdr += " "
+	}
+	switch kind {
+	case "global":
+		return fmt.Sprintf("@%s = %s%s global i32 0\n", name, hdr, strings.TrimSpace(tls+" "+ua))
+	case "global-declaration":
+		return fmt.Sprintf("@%s = %s%s global i32\n", name, hdr, strings.TrimSpace(tls+" "+ua))
+	case "declaration":
+		return fmt.Sprintf("declare %svoid @%s() %s\n", hdr, name, ua)
+	case "definition":
+		return fmt.Sprintf("define %svoid @%s() %s {\n  ret void\n}\n", hdr, name, ua)
+	default: // alias
+		return fmt.Sprintf("@%s = %s%s alias i32, i32* @target\n", name, hdr, strings.TrimSpace(tls+" "+ua))
+	}
+}
+
+var reEntityName = regexp.MustCompile(`@(e[0-9]+)\b`)
+var reStdinLine = regexp.MustCompile(`<stdin>:([0-9]+):`)
+
+// c18ValidCombos asks llvm-as which of the combinations are valid for kind.
+func c18ValidCombos(r *fw.Rec, kind string, combos []c18Combo) (valid []int, ok bool) {
+	alive := map[int]bool{}
+	for i := range combos {
+		alive[i] = true
+	}
+	for iter := 0; iter < 300; iter++ {
+		var sb strings.Builder
+		sb.WriteString("@target = global i32 0\n")
+		lineOf := map[int]int{} // text line (1-based) -> combo index
+		line := 2
+		for i, c := range combos {
+			if !alive[i] {
+				continue
+			}
+			t := c18ComboLine(kind, fmt.Sprintf("e%d", i), c)
+			lineOf[line] = i
+			line += strings.Count(t, "\n")
+			sb.WriteString(t)
+		}
+		okL, msg, err := llvmref.Accepts(sb.String())
+		if err != nil {
+			return nil, false
+		}
+		if okL {
+			for i := range combos {
+				if alive[i] {
+					valid = append(valid, i)
+				}
+			}
+			return valid, true
+		}
+		removed := 0
+		r.Tally("header_combinations_llvm_diagnostics", kind+":"+classify(firstLine(lastDiag(msg))))
+		for _, mm := range reEntityName.FindAllStringSubmatch(msg, -1) {
+			var idx int
+			fmt.Sscanf(mm[1], "e%d", &idx)
+			if alive[idx] {
+				delete(alive, idx)
+				removed++
+			}
+		}
+		if removed == 0 {
+			if mm := reStdinLine.FindStringSubmatch(msg); mm != nil {
+				var ln int
+				fmt.Sscanf(mm[1], "%d", &ln)
+				for l := ln; l >= 2; l-- {
+					if idx, okk := lineOf[l]; okk {
+						delete(alive, idx)
+						removed++
+						break
+					}
+				}
+			}
+		}
+		if removed == 0 {
+			r.Note("header combinations: cannot attribute LLVM's diagnostic: " + firstLine(lastDiag(msg)))
+			return nil, false
+		}
+	}
+	return nil, false
+}
+
+func c18HeaderCombos(r *fw.Rec, kind string) {
+	linkages := []enum.Linkage{enum.LinkageNone, enum.LinkageAppending, enum.LinkageAvailableExternally, enum.LinkageCommon, enum.LinkageInternal, enum.LinkageLinkOnce,
+		enum.LinkageLinkOnceODR, enum.LinkagePrivate, enum.LinkageWeak, enum.LinkageWeakODR, enum.LinkageExternal, enum.LinkageExternWeak}
+	switch kind {
+	case "global", "definition", "alias":
+		linkages = linkages[:10] // external / extern_weak mark declarations
+	case "global-declaration", "declaration":
+		linkages = []enum.Linkage{enum.LinkageNone, enum.LinkageExternal, enum.LinkageExternWeak}
+	}
+	if kind == "global-declaration" {
+		linkages = linkages[1:] // a global without initializer needs the keyword
+	}
+	preempts := []enum.Preemption{enum.PreemptionNone, enum.PreemptionDSOLocal, enum.PreemptionDSOPreemptable}
+	viss := []enum.Visibility{enum.VisibilityNone, enum.VisibilityDefault, enum.VisibilityHidden, enum.VisibilityProtected}
+	dlls := []enum.DLLStorageClass{enum.DLLStorageClassNone, enum.DLLStorageClassDLLExport, enum.DLLStorageClassDLLImport}
+	uas := []enum.UnnamedAddr{enum.UnnamedAddrNone, enum.UnnamedAddrLocalUnnamedAddr, enum.UnnamedAddrUnnamedAddr}
+	tlss := []enum.TLSModel{enum.TLSModelNone}
+	if kind == "global" || kind == "alias" || kind == "global-declaration" {
+		tlss = []enum.TLSModel{enum.TLSModelNone, enum.TLSModelGeneric, enum.TLSModelInitialExec, enum.TLSModelLocalDynamic, enum.TLSModelLocalExec}
+	}
+	var combos []c18Combo
+	for _, l := range linkages {
+		for _, p := range preempts {
+			for _, v := range viss {
+				for _, d := range dlls {
+					for _, u := range uas {
+						for _, t := range tlss {
+							combos = append(combos, c18Combo{l, p, v, d, u, t})
+						}
+					}
+				}
+			}
+		}
+	}
+	// the bulk of LLVM's objections, known beforehand (LLVM still has the last
+	// word on what remains): dllimport with dso_local, local linkage with
+	// non-default visibility, appending/common on anything but variables
+	{
+		var kept []c18Combo
+		for _, c := range combos {
+			local := c.l == enum.LinkagePrivate || c.l == enum.LinkageInternal
+			switch {
+			case c.p == enum.PreemptionDSOLocal && c.d == enum.DLLStorageClassDLLImport:
+			case local && (c.v == enum.VisibilityHidden || c.v == enum.VisibilityProtected):
+			case (kind == "alias" || kind == "definition") && (c.l == enum.LinkageAppending || c.l == enum.LinkageCommon):
+			case kind == "alias" && c.l == enum.LinkageAvailableExternally:
+			default:
+				kept = append(kept, c)
+			}
+		}
+		r.TallyN("header_combinations_llvm_invalid(not judged)", kind+":by-rule", len(combos)-len(kept))
+		combos = kept
+	}
+	valid, okV := c18ValidCombos(r, kind, combos)
+	if !okV {
+		r.Inconclusive("llvm-as could not be used to select the valid header combinations")
+		return
+	}
+	r.TallyN("header_combinations_llvm_valid", kind, len(valid))
+	r.TallyN("header_combinations_llvm_invalid(not judged)", kind, len(combos)-len(valid))
+	m := ir.NewModule()
+	target := m.NewGlobalDef("target", irconst.NewInt(types.I32, 0))
+	name := func(i int) string { return fmt.Sprintf("e%d", i) }
+	for _, i := range valid {
+		c := combos[i]
+		switch kind {
+		case "global":
+			g := m.NewGlobalDef(name(i), irconst.NewInt(types.I32, 0))
+			g.Linkage, g.Preemption, g.Visibility, g.DLLStorageClass, g.UnnamedAddr, g.TLSModel = c.l, c.p, c.v, c.d, c.u, c.t
+		case "global-declaration":
+			g := m.NewGlobal(name(i), types.I32)
+			g.Linkage, g.Preemption, g.Visibility, g.DLLStorageClass, g.UnnamedAddr, g.TLSModel = c.l, c.p, c.v, c.d, c.u, c.t
+		case "declaration", "definition":
+			f := m.NewFunc(name(i), types.Void)
+			if kind == "definition" {
+				f.NewBlock("").NewRet(nil)
+			}
+			f.Linkage, f.Preemption, f.Visibility, f.DLLStorageClass, f.UnnamedAddr = c.l, c.p, c.v, c.d, c.u
+		case "alias":
+			a := m.NewAlias(name(i), target)
+			a.Linkage, a.Preemption, a.Visibility, a.DLLStorageClass, a.UnnamedAddr, a.TLSModel = c.l, c.p, c.v, c.d, c.u, c.t
+		}
+	}
+	text, pp := printGuard(m)
+	if pp != "" {
+		r.Violate(fw.Violation{Key: "header-combinations-print-panic/" + kind, What: firstLine(pp)})
+		return
+	}
+	m2, perr, pmsg := parseGuard("c18-header", text)
+	if pmsg != "" || perr != nil {
+		what := pmsg
+		if perr != nil {
+			what = perr.Error()
+		}
+		r.Violate(fw.Violation{Key: "header-combinations-rejected/" + kind, Input: fw.Trunc(text, 4000), What: "the printed module of LLVM-valid header keyword combinations is not accepted by the parser: " + firstLine(what)})
+		return
+	}
+	got := map[string]c18Combo{}
+	for _, g := range m2.Globals {
+		got[g.GlobalName] = c18Combo{g.Linkage, g.Preemption, g.Visibility, g.DLLStorageClass, g.UnnamedAddr, g.TLSModel}
+	}
+	for _, f := range m2.Funcs {
+		got[f.GlobalName] = c18Combo{f.Linkage, f.Preemption, f.Visibility, f.DLLStorageClass, f.UnnamedAddr, enum.TLSModelNone}
+	}
+	for _, a := range m2.Aliases {
+		got[a.GlobalName] = c18Combo{a.Linkage, a.Preemption, a.Visibility, a.DLLStorageClass, a.UnnamedAddr, a.TLSModel}
+	}
+	bad := 0
+	for _, i := range valid {
+		c := combos[i]
+		r.Eval(1)
+		g, ok := got[name(i)]
+		if ok && g == c {
+			r.NontrivialN("header-combo/"+kind, 1)
+			continue
+		}
+		bad++
+		if bad > 3 {
+			continue
+		}
+		line := ""
+		for _, l := range strings.Split(text, "\n") {
+			if strings.Contains(l, "@"+name(i)+" ") || strings.Contains(l, "@"+name(i)+"(") {
+				line = l
+				break
+			}
+		}
+		r.Violate(fw.Violation{Key: "header-combination/" + kind, Input: line,
+			What: fmt.Sprintf("%s with linkage=%v preemption=%v visibility=%v dll=%v unnamed_addr=%v tls=%v is printed as `%s` and read back as linkage=%v preemption=%v visibility=%v dll=%v unnamed_addr=%v tls=%v (found=%v)",
+				kind, c.l, c.p, c.v, c.d, c.u, c.t, fw.Trunc(line, 200), g.l, g.p, g.v, g.d, g.u, g.t, ok)})
+	}
 }
